@@ -187,6 +187,20 @@ func genValue(g *vgen, name string) reflect.Value {
 	return v
 }
 
+// genLong builds a value of the type that contains one string of a fragmented length (16K items or more, or the
+// boundary 16383), if the type has a string whose length is a general length; ok reports whether it does.
+func genLong(g *vgen, name string) (v reflect.Value, ok bool) {
+	for try := 0; try < 40; try++ {
+		g.longLeft = 1
+		v = genValue(g, name)
+		if g.longLeft == 0 {
+			return v, true
+		}
+	}
+	g.longLeft = 0
+	return v, false
+}
+
 func aperEncDomain(e *emitter, roundTrip bool) {
 	g := newVgen(e.rng)
 	g.cleanBits = roundTrip
@@ -207,6 +221,11 @@ func aperEncDomain(e *emitter, roundTrip bool) {
 	for _, n := range leaves {
 		for k := 0; k < 6; k++ {
 			emit(n, genValue(g, n), k%2 == 0)
+		}
+		// 1a. fragmented lengths: every leaf string type whose length is a general length, at one of the lengths
+		// around the 16K / 64K boundaries (the lengths rotate, so the leaf types together cover all of them)
+		if v, ok := genLong(g, n); ok {
+			emit(n, v, false)
 		}
 		if !roundTrip {
 			g.invalid = true
@@ -263,6 +282,21 @@ func aperEncDomain(e *emitter, roundTrip bool) {
 			}
 		}
 	}
+	// 1c. fragmented open types: PDUs that carry one long string (e.g. a NAS-PDU of 16K octets or more inside an IE, so
+	// that the IE value and the message, both open types, are fragmented as well)
+	nLong := 3
+	if e.thorough() {
+		nLong = 40
+	}
+	for i := 0; i < nLong; i++ {
+		if v, ok := genLong(g, "NGAPPDU"); ok {
+			if !roundTrip && i%2 == 0 {
+				e.op("ngapenc", strings.Fields(valTokens(v))...)
+			} else {
+				emit("NGAPPDU", v, false)
+			}
+		}
+	}
 	// 2. random PDUs, transfers and arbitrary types
 	for i := 0; i < e.n; i++ {
 		var name string
@@ -314,12 +348,25 @@ func aperDecDomain(e *emitter) {
 		}
 		e.op("aperdec", name, paramTok(topParamString(name)), hx(b))
 	}
+	// fragmented lengths: a few inputs whose encoding holds a string of 16K items or more (quick tier: up to 32K, the
+	// prefixes and corruptions of each make some thirty inputs of that size)
+	g.longMax = 32768
+	nLong := 1
+	if e.thorough() {
+		g.longMax = 0
+		nLong = 12
+	}
 	for i := 0; i < e.n; i++ {
 		name := "NGAPPDU"
 		if e.rng.Intn(5) == 0 {
 			name = transfers[e.rng.Intn(len(transfers))]
 		}
 		v := genValue(g, name)
+		if i < nLong {
+			if lv, ok := genLong(g, "NGAPPDU"); ok {
+				name, v = "NGAPPDU", lv
+			}
+		}
 		b, err := safeMarshal(v, topParamString(name))
 		if err != nil || len(b) == 0 {
 			continue
